@@ -1457,14 +1457,15 @@ def _worker(job):
                 out["timeouts"].append({"group": "squash-boundary", "grammar": gtext, "passes": list(PASS_NAMES)})
             finally:
                 signal.alarm(0)
-    if prop in ("C02", "C04", "C06", "C01"):
+    if prop in ("C02", "C04", "C06", "C01", "C07"):
         # every shape of the implicit rules (silent or not, fused by the optimizer or not, referring to ordinary rules) under one
         # list grammar x every input over {a ; blank tab #} to length 3 (4 in the thorough tier) and longer ones
         tgrid = G.trivia_shape_grid()
         nsht = do_bundled[1] if do_bundled else NCPU
         mine_t = [c for j_, c in enumerate(tgrid) if j_ % nsht == shard % nsht]
         ins_t = small_inputs("a; \t#", 4 if tier == "thorough" else 3) + ["a ;a", "a;#xa", "a #a ;a", "a\t;\ta", "a;##a", "a; a #", "ab ;  b", "a#x#;b", "a #xy# ; b", "a \n;b",
-                                               "a; \tb", "a##;b", "ab ab;a", "a;b;a b", " a;b", "a;b ", "a#a a;b"]
+                                               "a; \tb", "a##;b", "ab ab;a", "a;b;a b", " a;b", "a;b ", "a#a a;b",
+                                               "a #a = b# ;a", "a#a=b#;b", "a #a =# ;a", "a #a = b#", "a#a = b##b=a#;a", "a #a= b # ; a"]
         for rules in mine_t:
             if not G.well_formed(rules):
                 continue
